@@ -427,7 +427,11 @@ def run(ctx):
     if not mk:
         chk.violation("R01.5", "anchor", "flat make_expression not found")
     vals = sorted({m[0] for m in muls})
-    if len(muls) >= 2 and len(vals) == 1 and vals[0] >= 100:
+    KMAX = 10 ** 12     # (K * depth + prio) * 10 + 5 has to stay inside i64 for every nesting depth a text can reach: 10 000 levels
+    if len(muls) >= 2 and len(vals) == 1 and vals[0] > KMAX:
+        chk.violation("R01.5", "too-large", "nesting step %d: the sort key (depth*K + prio)*10 + 5 overflows i64 for expressions nested %d levels deep (panic in debug builds, wrong application order in release builds)" % (
+            vals[0], (2 ** 63) // (vals[0] * 10) + 1), muls[0][2])
+    elif len(muls) >= 2 and len(vals) == 1 and vals[0] >= 100:
         chk.ok("R01.5", "depth scaling constant K=%d at %d uses" % (vals[0], len(muls)), str(muls), muls[0][2])
         chk.sample({"depth_step": vals[0], "uses": [m[2] for m in muls]})
     elif len(muls) < 2:
